@@ -78,60 +78,31 @@ def bool_flags(func):
 
 
 def reach_flags(sg, starts, avoid=None, edge_ok=None, init=None):
-    """Like Super.reach but the search state is (node, flag valuation of the
-    root frame).  Returns dict state -> predecessor state; use
-    ``flag_hits`` to test nodes."""
-    root = sg.root
-    flags = bool_flags(root)
-    seen = {}
-    todo = []
-    st0 = tuple(sorted((init or {}).items()))
-    for s in starts:
-        if avoid is not None and avoid(sg.nodes[s]):
-            continue
-        seen[(s, st0)] = None
-        todo.append((s, st0))
-    while todo:
-        n, st = todo.pop()
-        sn = sg.nodes[n]
-        val = dict(st)
-        # assignment completes at the 'out' node of the statement
-        if (sn.kind == 'out' and sn.frame.parent is None and
-                sn.cn.kind == 'stmt' and isinstance(sn.cn.ast, _ast.Assign)):
-            a = sn.cn.ast
-            for t in a.targets:
-                if isinstance(t, _ast.Name) and t.id in flags:
-                    val[t.id] = bool(a.value.value)
-        nst = tuple(sorted(val.items()))
-        for d, lab in sn.succ:
-            if (isinstance(lab, tuple) and len(lab) == 4 and
-                    lab[0] in ('T', 'F') and lab[2] is root and
-                    isinstance(lab[1], _ast.Name) and lab[1].id in val):
-                if val[lab[1].id] != (lab[0] == 'T'):
-                    continue
-            if edge_ok is not None and not edge_ok(sn, sg.nodes[d], lab):
-                continue
-            if avoid is not None and avoid(sg.nodes[d]):
-                continue
-            key = (d, nst)
-            if key in seen:
-                continue
-            seen[key] = (n, st)
-            todo.append(key)
-    return seen
+    """Flag-sensitive search (kept for callers; Super.reach is flag-
+    sensitive itself).  ``init``: {name: bool} for locals of the root frame.
+    Returns the Reach object; its ``states`` are keyed (node, valuation)."""
+    root_frame = sg.nodes[sg.entry].frame
+    init2 = {(id(root_frame), k): v for k, v in (init or {}).items()}
+    r = sg.reach(starts, avoid=avoid, edge_ok=edge_ok, init=init2)
+    return r
 
 
 def flag_witness(sg, seen, target_pred):
-    for (n, st) in sorted(seen, key=lambda k: k[0]):
+    for n in sorted(seen):
         if target_pred(sg.nodes[n]):
-            path = []
-            k = (n, st)
-            while k is not None:
-                path.append(k[0])
-                k = seen[k]
-            path.reverse()
-            return path
+            return sg.witness(seen, n)
     return None
+
+
+def flag_valuations_at(sg, seen, node_id):
+    """Root-frame flag valuations with which node_id was reached."""
+    root_frame = sg.nodes[sg.entry].frame
+    out = set()
+    for (n, st) in seen.states:
+        if n == node_id:
+            out.add(tuple(sorted((k[1], v) for k, v in st
+                                 if k[0] == id(root_frame))))
+    return sorted(out)
 
 
 def enumerate_paths(sg, start, end_pred, avoid=None, max_paths=4000,
@@ -141,9 +112,9 @@ def enumerate_paths(sg, start, end_pred, avoid=None, max_paths=4000,
     the (polarity, atom, func, cn) labels passed."""
     from .model import AnalysisError
     out = []
-    stack = [(start, [start], [], {start: 1})]
+    stack = [(start, [start], [], {start: 1}, {})]
     while stack:
-        n, path, facts, visits = stack.pop()
+        n, path, facts, visits, val = stack.pop()
         sn = sg.nodes[n]
         if end_pred(sn) and len(path) > 1:
             out.append((path, facts))
@@ -151,7 +122,10 @@ def enumerate_paths(sg, start, end_pred, avoid=None, max_paths=4000,
                 raise AnalysisError('path budget exceeded in %s' %
                                     sg.root.qualname)
             continue
+        val2 = sg._flag_update(sn, val)
         for d, lab in sn.succ:
+            if sg._flag_blocks(sn, lab, val2):
+                continue
             if visits.get(d, 0) >= max_visits and not end_pred(sg.nodes[d]):
                 continue
             if avoid is not None and avoid(sg.nodes[d]):
@@ -162,5 +136,5 @@ def enumerate_paths(sg, start, end_pred, avoid=None, max_paths=4000,
             if isinstance(lab, tuple) and len(lab) == 4 and \
                     lab[0] in ('T', 'F'):
                 f2 = facts + [lab]
-            stack.append((d, path + [d], f2, v2))
+            stack.append((d, path + [d], f2, v2, val2))
     return out
